@@ -433,6 +433,8 @@ def oracle_case(case):
         return oracle_lex(case)
     if kind == 'scope':
         return oracle_scope(case)
+    if kind == 'tmpl':
+        return oracle_tmpl(case)
     from genshi.template.eval import Expression
     src, lookup = case['src'], case['lookup']
     try:
@@ -1120,6 +1122,95 @@ def compare_ceval(cases, res):
             res.count('ceval:plain-eval-compared')
 
 
+# --------------------------------------------------------------------------
+# expressions observed through templates: ${...}, py:with, py:for targets
+
+class _Rec(object):
+    def __init__(self):
+        self.vals = []
+
+    def __call__(self, v):
+        self.vals.append(v)
+        return ''
+
+
+def tmpl_observe(case):
+    """the value(s) the template hands to `rec`, as a canonical outcome (None: template rejected at construction)"""
+    from genshi.template import MarkupTemplate
+    data = build_data(case['data'])
+    rec = _Rec()
+    data['rec'] = rec
+    try:
+        t = MarkupTemplate(case['src'], lookup=case['lookup'])
+    except Exception:  # noqa
+        return None
+
+    def run():
+        t.generate(**data).render('xml')
+        if case['form'] == 'D':
+            return list(rec.vals)
+        if len(rec.vals) != 1:
+            raise AssertionError('recorded %d values' % len(rec.vals))
+        return rec.vals[0]
+    return CG.norm_outcome(outcome(run))
+
+
+def tmpl_expr_case(case):
+    data = dict(case['data'])
+    data.update(case.get('bind') or {})
+    return {'kind': 'eval', 'src': case['expr'], 'lookup': case['lookup'], 'data': data}
+
+
+def oracle_tmpl(case):
+    """the expression inside a template evaluates to what Python gives for it (names bound by py:with / py:for are
+    context names)"""
+    got = tmpl_observe(case)
+    if got is None:
+        return None
+    real = ceval_real(tmpl_expr_case(case))
+    if real is None or isinstance(real, str):
+        return None
+    if real['eval'] is not None and real['eval'] != real['ref']:
+        return None
+    if got != real['ref']:
+        return {'case': case, 'what': 'the expression %r evaluated inside the template %r (lookup=%s) gives what Python gives for it' % (case['expr'], case['src'], case['lookup']),
+                'expected': real['ref'], 'observed': got, 'extensions_used': real['ext']}
+    return None
+
+
+def compare_templates(cases, res):
+    """stream `ceval-template`: the Lean evaluator on the equivalent plain expression vs what the template computed"""
+    lines, meta = [], []
+    for c in cases:
+        res.evaluations += 1
+        try:
+            f = oracle_tmpl(c)
+            got = tmpl_observe(c)
+            ec = tmpl_expr_case(c)
+            wire = G.to_wire(ast.parse(ec['src'].strip(), mode='eval').body)
+        except RecursionError:
+            res.count('tmpl:recursion-limit')
+            continue
+        if f:
+            res.failures.append(f)
+        if got is None:
+            res.count('tmpl:rejected')
+            continue
+        res.count('tmpl:form-%s:%s' % (c['form'], 'value' if got[0] == 'ok' else 'raises:' + got[1]))
+        lines.append(proto.line(Atom('C03'), Atom('ceval'), False, c['lookup'] == 'strict', CG.data_wire(ec['data']), wire))
+        meta.append((c, got))
+    answers = proto.run_lines(lines)
+    for (c, got), ans in zip(meta, answers):
+        if ans.startswith('unmodelled'):
+            res.count('tmpl:unmodelled')
+            continue
+        gs = CG.model_outcome(proto.dec(ans))
+        res.streams['ceval-template'] = res.streams.get('ceval-template', 0) + 1
+        res.nontrivial.add('tmpl|%s|%s|%s|%s' % (c['form'], c['lookup'], gs[0] if gs[0] == 'ok' else gs[1], ','.join(c.get('feat', []))))
+        if gs != got:
+            res.disagreements.append({'stream': 'ceval-template', 'case': c, 'model': repr(gs)[:500], 'real': repr(got)[:500]})
+
+
 def shard(arg):
     import random, sys, resource
     sys.setrecursionlimit(3000)
@@ -1175,6 +1266,11 @@ def shard(arg):
     if idx == 0:
         ccases = [{'kind': 'ceval', 'src': s_, 'lookup': lk, 'data': d_, 'feat': ['hand']} for s_, d_ in CG.HAND_CEVAL for lk in ('strict', 'lenient')] + ccases
     compare_ceval(ccases, res)
+    tcases = CG.gen_template_cases(rng, max(60, n // 6))
+    if idx == 0:
+        tcases = [{'kind': 'tmpl', 'form': f_, 'src': s_, 'expr': e_, 'bind': b_, 'lookup': lk, 'data': d_, 'feat': ['hand']}
+                  for f_, s_, e_, b_, d_ in CG.HAND_TMPL for lk in ('strict', 'lenient')] + tcases
+    compare_templates(tcases, res)
     res.samples = [c for c in cases[:3]]
     return res
 
